@@ -75,16 +75,19 @@ fn start_db(
         Sender<String>,
         Receiver<String>,
     ) = channel(100);
-    let keys_map = disk_ops::load_keys_map_from_disk();
     let is_oplog_valid = disk_ops::is_oplog_valid();
 
-    if is_oplog_valid {
+    // The keys file is only trusted under a valid flag: a kill while it was being rewritten leaves
+    // the flag invalid and the file torn
+    let keys_map = if is_oplog_valid {
         log::debug!("All fine with op-log metadafiles");
+        disk_ops::load_keys_map_from_disk()
     } else {
         log::warn!("Nun-db has restarted with op-log in a invalid state, oplog and keys metadafile will be deleted!");
         disk_ops::Oplog::clean_op_log_metadata_files();
         disk_ops::mark_op_log_as_invalid_on_disk().unwrap();
-    }
+        std::collections::HashMap::new()
+    };
 
     let dbs = nundb::db_ops::create_init_dbs(
         user.to_string(),
